@@ -462,13 +462,14 @@ func runCmpL0All(c *Ctx, r *RuleRun) {
 	}
 	n := 0
 	for _, cf := range compactors(c) {
-		for _, fc := range callsTo(p, cf, fetch) {
-			if k, ok := constInt(fc.Call.Args[1]); !ok || k != 0 {
+		for _, fs := range fetchSitesOf(p, cf, fetch) {
+			fc := fs.Site
+			if k, ok := constInt(fs.Level); !ok || k != 0 {
 				continue
 			}
 			// the selection function: the module call the fetched element set comes from
 			var sel *ssa.Call
-			p.dependsOn(fc.Call.Args[2], func(x ssa.Value) bool {
+			p.dependsOn(fs.Set, func(x ssa.Value) bool {
 				if call, ok := x.(*ssa.Call); ok {
 					if g := call.Call.StaticCallee(); g != nil && p.InModule(g) && g.Signature.Recv() != nil && call.Parent() == cf {
 						sel = call
@@ -478,7 +479,33 @@ func runCmpL0All(c *Ctx, r *RuleRun) {
 				return false
 			})
 			if sel == nil {
-				r.Undecided(p.FnName(cf), "L0 selection", p.Pos(instrPos(fc)), "cannot find the call that selects the L0 tables")
+				// the selection loop is written out in the compactor itself
+				appends, _, blocks := inlineSelection(p, cf, fs.Set)
+				if len(appends) == 0 {
+					r.Undecided(p.FnName(cf), "L0 selection", p.Pos(instrPos(fc)), "cannot find the call that selects the L0 tables")
+					continue
+				}
+				n++
+				bad := ""
+				for b := range blocks {
+					for _, ins := range b.Instrs {
+						if cl, ok := ins.(*ssa.Call); ok {
+							if g := cl.Call.StaticCallee(); g != nil && (g == cmpKeys || g == parseKey) {
+								bad = p.FnName(g)
+							}
+						}
+						if bo, ok := ins.(*ssa.BinOp); ok {
+							switch bo.Op {
+							case token.LSS, token.LEQ, token.GTR, token.GEQ:
+								if bt, ok := bo.X.Type().Underlying().(*types.Basic); ok && bt.Info()&types.IsString != 0 {
+									bad = "a string comparison in the selection loop"
+								}
+							}
+						}
+					}
+				}
+				r.Check(bad == "", p.FnName(cf), "L0 selection ignores keys", p.Pos(instrPos(appends[0])), "every L0 table is taken, no key range is consulted",
+					"the L0 tables to compact are selected by key range (reaches "+bad+"): an older L0 table that does not overlap the oldest one stays in L0 while newer data moves to L1, and answers lookups with its older versions")
 				continue
 			}
 			n++
@@ -748,51 +775,86 @@ func runCmpOutLevel(c *Ctx, r *RuleRun) {
 		}
 		want := o.nf(call.Call.Args[2])
 		got := map[string]string{"table.Build": want}
-		// the index that names the file: stores to tableHandle.levelIdx depend on a call with a level argument
-		for _, st := range storesToField(f, idxField) {
-			p.dependsOn(st.Val, func(x ssa.Value) bool {
-				if cl, ok := x.(*ssa.Call); ok && len(p.Callees(cl)) == 1 && p.recvIs(p.Callees(cl)[0], "levelManager") && len(cl.Call.Args) == 2 {
-					if bt, ok := cl.Call.Args[1].Type().Underlying().(*types.Basic); ok && bt.Kind() == types.Int {
-						got["next free index of level"] = o.nf(cl.Call.Args[1])
-						return true
+		scan := func(f *ssa.Function, got map[string]string) {
+			// the index that names the file: stores to tableHandle.levelIdx depend on a call with a level argument
+			for _, st := range storesToField(f, idxField) {
+				p.dependsOn(st.Val, func(x ssa.Value) bool {
+					if cl, ok := x.(*ssa.Call); ok && len(p.Callees(cl)) == 1 && p.recvIs(p.Callees(cl)[0], "levelManager") && len(cl.Call.Args) == 2 {
+						if bt, ok := cl.Call.Args[1].Type().Underlying().(*types.Basic); ok && bt.Kind() == types.Int {
+							got["next free index of level"] = o.nf(cl.Call.Args[1])
+							return true
+						}
 					}
+					return false
+				})
+			}
+			// the durable writer
+			eachInstr(f, func(ins ssa.Instruction) {
+				cl, ok := ins.(*ssa.Call)
+				if !ok {
+					return
 				}
-				return false
-			})
-		}
-		// the durable writer
-		eachInstr(f, func(ins ssa.Instruction) {
-			cl, ok := ins.(*ssa.Call)
-			if !ok {
-				return
-			}
-			cs := p.Callees(cl)
-			if len(cl.Call.Args) >= 3 && len(cs) == 1 && d.tablePub.FuncSuccess(cs[0]) {
-				got["durable writer"] = o.nf(cl.Call.Args[1])
-			}
-			// list insert: lm.levels[L].PushBack
-			if obj := p.ExtCallee(cl); obj != nil && funcIs(obj, "container/list", "List", "PushBack") {
-				if ld, ok := cl.Call.Args[0].(*ssa.UnOp); ok {
-					if ia, ok := ld.X.(*ssa.IndexAddr); ok {
-						if fv, _ := loadedField(ia.X); fv == levels {
-							got["level list"] = o.nf(ia.Index)
+				cs := p.Callees(cl)
+				if len(cl.Call.Args) >= 3 && len(cs) == 1 && d.tablePub.FuncSuccess(cs[0]) {
+					got["durable writer"] = o.nf(cl.Call.Args[1])
+				}
+				// list insert: lm.levels[L].PushBack
+				if obj := p.ExtCallee(cl); obj != nil && funcIs(obj, "container/list", "List", "PushBack") {
+					if ld, ok := cl.Call.Args[0].(*ssa.UnOp); ok {
+						if ia, ok := ld.X.(*ssa.IndexAddr); ok {
+							if fv, _ := loadedField(ia.X); fv == levels {
+								got["level list"] = o.nf(ia.Index)
+							}
 						}
 					}
 				}
-			}
-		})
-		bad := ""
-		for k, v := range got {
-			if v != want {
-				bad = fmt.Sprintf("%s uses level %s but table.Build is given level %s", k, v, want)
-			}
+			})
 		}
-		if len(got) < 4 {
-			r.Undecided(p.FnName(f), "output level", p.Pos(instrPos(call)), fmt.Sprintf("only %d of the 4 uses of the output level were found: %v", len(got), got))
+		judge := func(f *ssa.Function, at ssa.Instruction, got map[string]string, want string) {
+			bad := ""
+			for k, v := range got {
+				if v != want {
+					bad = fmt.Sprintf("%s uses level %s but table.Build is given level %s", k, v, want)
+				}
+			}
+			if len(got) < 4 {
+				r.Undecided(p.FnName(f), "output level", p.Pos(instrPos(at)), fmt.Sprintf("only %d of the 4 uses of the output level were found: %v", len(got), got))
+				return
+			}
+			r.Check(bad == "", p.FnName(f), "output level", p.Pos(instrPos(at)), "Build, file index, writer and level list all use level "+want,
+				bad+": the output is named after (or registered in) another level, a later rename can overwrite a live table of that level")
+		}
+		scan(f, got)
+		// a helper that builds (and writes) the table for the level it is handed: the remaining uses are looked for at
+		// each of its call sites, with the level that call site passes
+		if pr, isParam := unconv(call.Call.Args[2]).(*ssa.Parameter); isParam && len(got) < 4 && !p.isExported(f) && len(p.CallersOf(f)) > 0 {
+			idx := -1
+			for i, q := range f.Params {
+				if q == pr {
+					idx = i
+				}
+			}
+			for _, cs := range p.CallersOf(f) {
+				cc, isCall := cs.(*ssa.Call)
+				if !isCall || idx < 0 || idx >= len(cc.Call.Args) {
+					r.Undecided(p.FnName(f), "output level", p.Pos(instrPos(cs)), "the table-building helper is called through go/defer or with an unexpected argument list")
+					continue
+				}
+				wantC := o.nf(cc.Call.Args[idx])
+				gotC := map[string]string{}
+				for k, v := range got {
+					if v == want {
+						gotC[k] = wantC
+					} else {
+						gotC[k] = v
+					}
+				}
+				scan(cc.Parent(), gotC)
+				judge(cc.Parent(), cc, gotC, wantC)
+			}
 			continue
 		}
-		r.Check(bad == "", p.FnName(f), "output level", p.Pos(instrPos(call)), "Build, file index, writer and level list all use level "+want,
-			bad+": the output is named after (or registered in) another level, a later rename can overwrite a live table of that level")
+		judge(f, call, got, want)
 	}
 }
 
@@ -980,9 +1042,10 @@ func runTableWhole(c *Ctx, r *RuleRun) {
 	isSingle := func(v ssa.Value) bool { return fieldIs(v, single) }
 	for _, f := range fns {
 		n := 0
-		for _, fc := range callsTo(p, f, fetch) {
+		for _, fs := range fetchSitesOf(p, f, fetch) {
 			n++
-			h := fc.Call.Args[len(fc.Call.Args)-1]
+			fc := fs.Fetch
+			h := fs.Handle
 			ok := p.dependsOn(h, isWhole) && !p.dependsOn(h, isSingle)
 			r.Check(ok, p.FnName(f), "fetches the whole table", p.Pos(instrPos(fc)), "handle = Index.DataBlock",
 				"only one data block of the table is read: the rest of its entries is missing from the merge / from the rebuilt filter and the recovered maximum version")
@@ -1196,12 +1259,12 @@ func runCmpRmOrder(c *Ctx, r *RuleRun) {
 	}
 	n := 0
 	for _, cf := range compactors(c) {
-		for _, fc := range callsTo(p, cf, fetch) {
-			if k, ok := constInt(fc.Call.Args[1]); !ok || k != 0 {
+		for _, fs := range fetchSitesOf(p, cf, fetch) {
+			if k, ok := constInt(fs.Level); !ok || k != 0 {
 				continue
 			}
 			var sel *ssa.Call
-			p.dependsOn(fc.Call.Args[2], func(x ssa.Value) bool {
+			p.dependsOn(fs.Set, func(x ssa.Value) bool {
 				if call, ok := x.(*ssa.Call); ok {
 					if g := call.Call.StaticCallee(); g != nil && p.InModule(g) && g.Signature.Recv() != nil && call.Parent() == cf {
 						sel = call
@@ -1211,6 +1274,13 @@ func runCmpRmOrder(c *Ctx, r *RuleRun) {
 				return false
 			})
 			if sel == nil {
+				// the selection loop is written out in the compactor itself
+				if appends, walk, _ := inlineSelection(p, cf, fs.Set); len(appends) > 0 {
+					n++
+					ok := walk["Front"] && walk["Next"] && !walk["Back"] && !walk["Prev"]
+					r.Check(ok, p.FnName(cf), "L0 inputs oldest first", p.Pos(instrPos(appends[0])), "selected with Front()/Next(): removal follows age order",
+						fmt.Sprintf("the L0 inputs are selected with %v, so they are unlinked and deleted newest first: after a crash between two removals an older L0 table survives above the merged output and answers lookups with stale values", keys(walk)))
+				}
 				continue
 			}
 			for _, g := range p.Callees(sel) {
@@ -1566,4 +1636,37 @@ func runCodecBlocks(c *Ctx, r *RuleRun) {
 	})
 	r.Check(bad == "", p.FnName(build), "fresh slice per data block", p.Pos(pos), "the block accumulator is reset by value",
 		"table.Build "+bad+" after collecting a block: the following block overwrites the entries of the blocks already collected (they share the backing array), so multi-block tables are written with wrong contents")
+}
+
+// inlineSelection: the table set a fetch reads was collected in the compactor itself - the append calls (in loops of
+// cf) it derives from, the container/list calls the collected elements come from, and the blocks of those loops.
+func inlineSelection(p *Prog, cf *ssa.Function, set ssa.Value) (appends []*ssa.Call, walk map[string]bool, blocks map[*ssa.BasicBlock]bool) {
+	walk = map[string]bool{}
+	blocks = map[*ssa.BasicBlock]bool{}
+	p.dependsOn(set, func(x ssa.Value) bool {
+		cl, ok := x.(*ssa.Call)
+		if !ok || cl.Parent() != cf {
+			return false
+		}
+		if bi, ok := cl.Call.Value.(*ssa.Builtin); ok && bi.Name() == "append" && isElemSlice(cl.Type()) && inLoop(cl.Block()) {
+			appends = append(appends, cl)
+		}
+		if obj := p.ExtCallee(cl); obj != nil && obj.Pkg() != nil && obj.Pkg().Path() == "container/list" {
+			switch obj.Name() {
+			case "Front", "Back", "Next", "Prev":
+				walk[obj.Name()] = true
+			}
+		}
+		return false
+	})
+	for _, lp := range naturalLoops(cf) {
+		for _, ap := range appends {
+			if lp.body[ap.Block()] {
+				for b := range lp.body {
+					blocks[b] = true
+				}
+			}
+		}
+	}
+	return
 }
